@@ -137,13 +137,13 @@ def check_strides(ctx, w):
     _ret(ctx, w, SEC, 'SymbolTableSection.num_symbols', (), 'sh_size // sh_entsize')
     f, env = _parse_at(ctx, w, SEC, 'SymbolTableSection.get_symbol', ('n',), 'Elf_Sym', 'stream', 'sh_offset + n * sh_entsize')
     got = [expr.nfs(r.value, env) for r in expr.returns_of(f.node)]
-    want = 'Symbol(struct_parse(Elf_Sym,stream,stream_pos=%s),get_string(stringtable,st_name))' % expr.spec_nf('sh_offset + n*sh_entsize')
+    want = 'Symbol(struct_parse(Elf_Sym,stream,%s),get_string(stringtable,st_name))' % expr.spec_nf('sh_offset + n*sh_entsize')
     ctx.ob('I-STRIDE', f.construct, 'name from linked string table at st_name', got == [want],
            msg='symbol name is not read from the linked string table at st_name', got=got, expected=want)
     _ret(ctx, w, SEC, 'SUNWSyminfoTableSection.num_symbols', (), 'sh_size // sh_entsize - 1')
     f, env = _parse_at(ctx, w, SEC, 'SUNWSyminfoTableSection.get_symbol', ('n',), 'Elf_Sunw_Syminfo', 'stream', 'sh_offset + n * sh_entsize')
     got = [expr.nfs(r.value, env) for r in expr.returns_of(f.node)]
-    want = 'Symbol(struct_parse(Elf_Sunw_Syminfo,stream,stream_pos=%s),name(get_symbol(symboltable,n)))' % expr.spec_nf('sh_offset + n*sh_entsize')
+    want = 'Symbol(struct_parse(Elf_Sunw_Syminfo,stream,%s),name(get_symbol(symboltable,n)))' % expr.spec_nf('sh_offset + n*sh_entsize')
     ctx.ob('I-STRIDE', f.construct, 'name from the linked symbol table at the same index', got == [want], got=got, expected=want,
            msg='syminfo entry name is not that of symbol n of the linked symbol table')
     f, env = _parse_at(ctx, w, SEC, 'SymbolTableIndexSection.get_section_index', ('n',), "Elf_word('')", 'stream', 'sh_offset + n * sh_entsize')
